@@ -113,6 +113,59 @@ pub fn tree_scenario(n: usize, order: &str, action: &str) -> u64 {
             let c = t.into_iter().rev().count() as u64;
             assert_eq!(c, len);
         }
+        // the derived iterator forms a maintainer may specialise (nth, nth_back, skip, step_by,
+        // last, fold): each must consume or release the rest of the tree iteratively
+        "iter_nth_past_end" => {
+            let mut it = t.into_iter();
+            let _ = it.next();
+            let _ = it.next_back();
+            let r = it.len();
+            assert!(it.nth(r).is_none());
+            assert_eq!(it.len(), 0);
+            assert!(it.next().is_none() && it.next_back().is_none());
+        }
+        "iter_nth_back_past_end" => {
+            let mut it = t.into_iter();
+            let _ = it.next();
+            let r = it.len();
+            assert!(it.nth_back(r + 1).is_none());
+            assert_eq!(it.len(), 0);
+        }
+        "iter_nth_mid_drop" => {
+            let mut it = t.into_iter();
+            let x = it.nth(n / 2);
+            assert!(x.is_some());
+            let y = it.nth_back(n / 4);
+            assert!(y.is_some());
+            drop(it);
+        }
+        "iter_skip_all" => {
+            let mut it = t.into_iter().skip(n);
+            assert!(it.next().is_none());
+        }
+        "iter_step_by" => {
+            let c = t.into_iter().step_by(n / 3 + 1).count();
+            assert_eq!(c, 3);
+        }
+        "iter_last_fold" => {
+            let l = t.into_iter().last();
+            assert!(l.is_some());
+            let t2 = build(n, order);
+            let s = t2.into_iter().rev().fold(0u64, |a, _| a + 1);
+            assert_eq!(s, len);
+        }
+        "set_iter_nth" => {
+            drop(t);
+            let mut s = SplaySet::new(cmp_u as fn(&u32, &u32) -> Ordering);
+            if order == "desc" { s.extend((0..n as u32).rev()); } else { s.extend(0..n as u32); }
+            let mut it = s.into_iter();
+            let _ = it.next();
+            assert!(it.nth(n).is_none());
+            assert!(it.next().is_none());
+            let mut s = SplaySet::new(cmp_u as fn(&u32, &u32) -> Ordering);
+            if order == "desc" { s.extend((0..n as u32).rev()); } else { s.extend(0..n as u32); }
+            assert!(s.into_iter().skip(n).next().is_none());
+        }
         "query" => {
             // lookups splay the chain; every one must stay iterative
             let mut acc = 0u64;
